@@ -91,7 +91,7 @@ class Env:
 
     def __init__(self, spec):
         self.zone = spec.get("zone")
-        self.clock = spec.get("clock")  # list of floats (successive reads) or single float
+        self.clock = spec.get("clock") or None  # list of floats (successive reads) or single float
         self.tm = None
 
     def __enter__(self):
